@@ -37,7 +37,7 @@ CFG = {
     "technique": "Lean 4 proof over the model + differential correspondence with in-process identity oracle",
     "variants": [{"features": []}],
     "lean_modules": ["SuccinctlyVerif.Props.C25"],
-    "lean_files": ["SuccinctlyVerif/Props/C25.lean", "SuccinctlyVerif/Proof/JqOrder.lean", "SuccinctlyVerif/Proof/JqCodec.lean", "SuccinctlyVerif/Proof/JqPaths.lean", "SuccinctlyVerif/Model/JqValue.lean", "SuccinctlyVerif/Model/Jq.lean"],
+    "lean_files": ["SuccinctlyVerif/Props/C25.lean", "SuccinctlyVerif/Proof/JqOrder.lean", "SuccinctlyVerif/Proof/JqCodec.lean", "SuccinctlyVerif/Proof/JqPaths.lean", "SuccinctlyVerif/Proof/JqEqv.lean", "SuccinctlyVerif/Model/JqValue.lean", "SuccinctlyVerif/Model/Jq.lean"],
     "generated": [],
     "verdict": _verdict,
     "counters": _counters,
